@@ -39,10 +39,17 @@ ReqVerdict(cur, o) ==
                     /\ Agree(o.serve, o.find) /\ Agree(o.esc, o.findesc) /\ Agree(o.pfx, o.findpfx) /\ Agree(o.escR, o.findescR) /\ Agree(o.pfxesc, o.findpfxesc)
                     \* a request without the configured prefix is not found (unless the path itself carries it)
                     /\ (o.nopfx.k = "404" \/ (Len(o.p) >= 4 /\ SubSeq(o.p, 1, 4) = <<"/", "x", "x", "x">>))
+      \* Dev_OptionsPreflight204: a known path without an OPTIONS operation answers OPTIONS with 204
+      \* and Access-Control-Allow-Methods (the defined methods) instead of 405 with Allow
+      preflight == /\ "Dev_OptionsPreflight204" \in KnownDeviations /\ o.m = "OPTIONS"
+                   /\ \E w \in want : /\ w.k = "405"
+                                        /\ \A i \in 1..Len(Subs(o)) : Subs(o)[i].k = "options204" /\ {Subs(o)[i].allow[j] : j \in 1..Len(Subs(o)[i].allow)} = w.allow
+                   /\ \A i \in 1..Len(Finds(o)) : Finds(o)[i].k = "none"
       impl(d) == Serve(cur.tree, o.p, o.m, d)
       sameEverywhere == /\ \A i \in 1..Len(Subs(o)) : Proj(Subs(o)[i]) = Proj(o.serve)
                         /\ \A i \in 1..Len(Finds(o)) : Agree(o.serve, Finds(o)[i]) IN
   IF abstractOK THEN (IF Proj(o.serve) = impl(KnownDeviations) THEN "ok" ELSE "drift")
+  ELSE IF preflight THEN "known=Dev_OptionsPreflight204"
   ELSE IF sameEverywhere /\ \E d \in SUBSET KnownDeviations : d # {} /\ Proj(o.serve) = impl(d)
        THEN LET d == CHOOSE x \in SUBSET KnownDeviations : x # {} /\ Proj(o.serve) = impl(x)
                       /\ \A y \in SUBSET KnownDeviations : (y # {} /\ Proj(o.serve) = impl(y)) => Cardinality(x) <= Cardinality(y) IN
